@@ -42,8 +42,11 @@ def gen_cases(ctx):
   rng = ctx.rng
   n = 6000 if ctx.quick else 40000
   for i in range(n):
-    api = 'piter2' if i % 12 == 11 else None
+    api = 'piter2' if i % 12 in (5, 11) else ('chain' if i % 24 == 7 else None)
     case = lp.gen_case(rng, quick=ctx.quick, api=api)
+    if i % 10 == 6:
+      case = lp.blocked_case(rng, quick=ctx.quick)
+      ctx.count('directed', 'blocked-producers')
     if i % 10 == 3:
       # directed at the hazards: more tasks than workers, full queue (more outputs than the buffer), then an
       # early stop or a late failure -- tasks that start late, producers parked in put during maybe_stop/shutdown
@@ -118,6 +121,9 @@ def finding(case, what):
 
 
 def neighbours(case, rng):
+  # first the classic hang shape: several producers parked on a small full buffer when something fails / stops
+  for k in range(400):
+    yield lp.blocked_case(rng)
   for k in range(300):
     c = copy.deepcopy(case)
     c['sched'] = dict(kind=rng.choice(['random', 'pct']), seed=rng.randrange(10**9), changes=rng.randrange(1, 6),
@@ -134,7 +140,9 @@ def extra(ctx):
   n = 500 if ctx.quick else 4000
   cases = []
   for i in range(n):
-    case = lp.gen_case(ctx.rng, quick=ctx.quick, api='piter2' if i % 10 == 9 else None)
+    case = lp.gen_case(ctx.rng, quick=ctx.quick, api='piter2' if i % 10 in (4, 9) else ('chain' if i % 20 == 7 else None))
+    if i % 10 == 6:
+      case = lp.blocked_case(ctx.rng, quick=ctx.quick)
     if pool_too_small(case):       # known open finding, reproduced in stage 1 (it costs a join timeout here)
       case['workers'] = 0
     case['sched'] = None
